@@ -189,7 +189,8 @@ func init() {
 		pc := pc
 		for _, method := range []string{"GET", "HEAD", "PUT"} {
 			method := method
-			register(variant{fam: "http.path." + method, name: pc.name, applies: always, build: func(fx *fixture, rng *rand.Rand) []*op {
+			// lookups of absent AC entries go to the proxy backend through Contains/Get: always part of the run
+			register(variant{fam: "http.path." + method, name: pc.name, core: pc.name == "ac-absent", applies: always, build: func(fx *fixture, rng *rand.Rand) []*op {
 				p := pc.f(fx, rng)
 				q := httpReq{method: method, path: p}
 				if method == "PUT" {
@@ -207,7 +208,7 @@ func init() {
 			}})
 		}
 	}
-	register(variant{fam: "http.method", name: "unsupported", weight: 2, applies: always, build: func(fx *fixture, rng *rand.Rand) []*op {
+	register(variant{fam: "http.method", name: "unsupported", weight: 8, applies: always, build: func(fx *fixture, rng *rand.Rand) []*op {
 		m := lib.Pick(rng, []string{"POST", "DELETE", "PATCH", "OPTIONS", "TRACE", "PROPFIND", "get", "Put", "FOO", "M-SEARCH", strings.Repeat("X", 300)})
 		p := lib.Pick(rng, []string{"/cas/" + lib.Pick(rng, fx.pool.small[1:]).hash, "/ac/" + lib.RandHash(rng), "/cas/" + lib.RandHash(rng)})
 		return []*op{{ep: "http:OTHER:/cas|ac", mustFail: true, desc: map[string]any{"method": clip(m, 40), "path": p}, noRetry: true,
@@ -215,7 +216,7 @@ func init() {
 				return rawRun(ctx, fx.child.HTTPAddr, 0, []rawStep{{w: reqHead(m, p, "Content-Length", "3", "Connection", "close")}, {w: []byte("abc"), readAll: true}})
 			}}}
 	}})
-	register(variant{fam: "http.method", name: "status-and-metrics-odd-methods", applies: always, build: func(fx *fixture, rng *rand.Rand) []*op {
+	register(variant{fam: "http.method", name: "status-and-metrics-odd-methods", weight: 4, applies: always, build: func(fx *fixture, rng *rand.Rand) []*op {
 		m := lib.Pick(rng, []string{"GET", "HEAD", "PUT", "POST", "DELETE", "OPTIONS"})
 		p := lib.Pick(rng, []string{"/status", "/metrics", "/status/", "/status?x", "/metrics/x", "/debug/pprof/", "/debug/pprof/goroutine?debug=2"})
 		return []*op{{ep: "http:" + m + ":/status|metrics", desc: map[string]any{"method": m, "path": p},
